@@ -89,8 +89,16 @@ Reject(n, c, r) == /\ Go(c, "rejected") /\ Did(n, c, r)
 SizeSeen(c) == IF IsIn(c) THEN Cardinality(inb) ELSE Cardinality(outb)
 IpSeen(c) == IF IsIn(c) THEN FromIp(IpOf[c]) ELSE 0
 
+(* Environment (TCP): two inbound sockets with the same remote ip:port are never alive together.  A peer may     *)
+(* abort a connection and reconnect from the SAME source ip:port while the node still holds (and still records)  *)
+(* the dead one; the dead socket cannot complete a handshake any more.  So an inbound attempt starts only when   *)
+(* no other inbound attempt with its remote address is between its check and its Save.  A recorded (dead)        *)
+(* connection with that address may exist: the controller must then refuse the newcomer (AddrFree), because the  *)
+(* inbound record is keyed by the remote address and removePeer of the old connection would delete the shared key*)
+MayStart(c) == IsIn(c) => \A d \in Conns \ {c} : (IsIn(d) /\ AddrOf[d] = AddrOf[c]) => pc[d] \in {"idle", "saved", "closed", "rejected"}
+
 (*************************** fine-grained steps ****************************)
-CheckAddr(c) == /\ SplitCheck /\ pc[c] = "idle"
+CheckAddr(c) == /\ SplitCheck /\ pc[c] = "idle" /\ MayStart(c)
                 /\ IF AddrFree(c) THEN Go(c, "c1") /\ Did("CheckAddr", c, "ok") /\ UNCHANGED <<inb, outb, lsn, peers, snap>>
                                   ELSE Reject("CheckAddr", c, "rej-addr")
                 /\ UNCHANGED cing
@@ -135,7 +143,7 @@ SaveFine(c) == SplitCheck /\ pc[c] = "hs" /\ Insert("Save", c)
 
 (*************************** coarse-grained steps **************************)
 \* beforeHandshakeCheck (+ tryAddConnecting) without another goroutine in between
-Check(c) == /\ ~SplitCheck /\ pc[c] = "idle"
+Check(c) == /\ ~SplitCheck /\ pc[c] = "idle" /\ MayStart(c)
             /\ IF ~AddrFree(c) THEN Reject("Check", c, "rej-addr") /\ UNCHANGED cing
                ELSE IF ~NotFull(c) THEN Reject("Check", c, "rej-full") /\ UNCHANGED cing
                ELSE IF ~IpOk(c) THEN Reject("Check", c, "rej-ip") /\ UNCHANGED cing
@@ -184,6 +192,11 @@ Limits == LimIn /\ LimIp /\ LimOut
 Book == /\ inb = {AddrOf[c] : c \in Est("in")}
         /\ outb = {AddrOf[c] : c \in Est("out")}
         /\ cing \subseteq {AddrOf[c] : c \in {d \in Conns : ~IsIn(d) /\ pc[d] \in {"checked", "hs"}}}
+
+\* the quantity the limits are enforced on (the size of the record) is the number of live connections: no live
+\* connection is missing from the record (an under-counting record admits more connections than the limit)
+LiveCounted == /\ Cardinality(inb) = Cardinality(Est("in"))
+               /\ \A ip \in IPs : FromIp(ip) = Cardinality({c \in Est("in") : IpOf[c] = ip})
 
 State == [pc |-> pc, inb |-> inb, outb |-> outb, lsn |-> lsn, cing |-> cing, peers |-> peers, snap |-> snap]
 =============================================================================
